@@ -29,7 +29,7 @@ CHECKS = {
   "ref": "DESIGN.md 7/C06",
  },
  "C08": {
-  "text": "Regenerated every run from the sources and from the LINKED engine: the deny-list, the engine's built-in table, and every call into the engine's API. Lean proves forbidden is a subset of the deny-list, the deny-list names exist in the engine, there is one compile site and it passes the deny-list, and on a term model a denied call is found at any depth. The matrix compiles a profile for every built-in x 20 embedding positions x 4 call syntaxes x debug flag: rejected-as-unsafe iff on the deny-list, forbidden ones rejected everywhere - also when the module has a second defect (keywords used as names, syntax or type errors, unknown functions) - and nothing is evaluated.",
+  "text": "Regenerated every run from the sources and from the LINKED engine: the deny-list, the engine's built-in table, and every call into the engine's API. Lean proves forbidden is a subset of the deny-list, the deny-list names exist in the engine, there is one compile site and it passes the deny-list, and on a term model a denied call - or a `with f as op` binding of a denied operator that is never called by name - is found at any depth. The matrix compiles a profile for every built-in x 20 embedding positions x 4 call syntaxes x debug flag: rejected-as-unsafe iff on the deny-list, forbidden ones rejected everywhere - also when the module has a second defect (keywords used as names, syntax or type errors, unknown functions) - and nothing is evaluated.",
   "note": "Trusted: Lean kernel; OPA's capability check itself (modelled, tied by the exhaustive matrix in the thorough tier); extractor.",
   "technique": "Lean 4 proofs over regenerated tables (decide) and a term-level induction + exhaustive compile matrix against the linked engine",
   "ref": "DESIGN.md 7/C08",
